@@ -18,7 +18,7 @@ P["C10"] = {"assumptions": [A["A1"], A["KANI"], A["FLOAT"]], "trusted_base": TB_
 P["C11"] = {"assumptions": [A["KANI"]], "trusted_base": TB_K, "not_decided": ["bounded: <=3 keyframes (std sort executed with unwinding assertions); positions fully symbolic. Downstream, sorted distinct positions determine everything (C01 contracts take the sorted list)"]}
 P["C12"] = {"assumptions": [ATL, A["KANI"]], "trusted_base": TB_K, "not_decided": ["bounded: 0..3 components"]}
 P["C13"] = {"assumptions": [A["KANI"], A["FLOAT"], "lyon_geom's Bezier polynomial is executed, not assumed"], "trusted_base": TB_K,
-            "not_decided": ["range [0,1] for OutSine, OutQuad, OutCubic, OutQuart, OutQuint, OutExpo (no result in 900-1500 s with Kissat); the other 20 non-Back curves are proved (8 in the quick tier, 12 in the thorough tier)", "monotonicity and In/Out point-mirror (two-variable nonlinear float relations)"]}
+            "not_decided": ["range [0,1] for OutSine, OutQuad, OutCubic, OutQuart, OutQuint, OutExpo (no result in 900-1500 s with Kissat); the other 20 non-Back curves are proved (8 in the quick tier, 12 in the thorough tier)", "monotonicity and In/Out point-mirror: harnesses were written (a(x)+b(1-x)=1 within 1e-5 for 6 pairs; calc(x)<=calc(y)+1e-6 for x<=y for 3 curves) and did not return within 1200 s each with Kissat, so they are not registered"]}
 P["C14"] = {"assumptions": [A["KANI"], A["FLOAT"]], "trusted_base": TB_K,
             "not_decided": ["betweenness / same-value / nearest for 16..64-bit integer types and f32/f64 over all f32 x (two symbolic float products: no result in 600 s with cadical, kissat or cvc5); 8-bit types are proved for all x in the thorough tier", "monotonicity in x", "glam: Vec3A, Vec4, Quat, DQuat (SIMD-backed / delegating to glam's own lerp) are not covered; the other 17 vector types are proved component-wise"]}
 P["C20"] = {"assumptions": [A["A1"], A["KANI"], A["FLOAT"]], "trusted_base": TB_K + TB_V,
